@@ -111,7 +111,11 @@ func runC09(e *env) {
 	}
 	// metamorphic twins: add an ignored field to the last struct of the analysed file
 	nBase := len(specs)
-	ignoredFields := []string{"\tzzIgnored1 int\n", "\tZzIgnored2 []string `json:\"-\"`\n", "\tZzIgnored3 map[string]int `gomacro:\"ignore\"`\n", "\tzzIgnored4 float64 `json:\"x\"`\n"}
+	ignoredFields := []string{"\tzzIgnored1 int\n", "\tZzIgnored2 []string `json:\"-\"`\n", "\tZzIgnored3 map[string]int `gomacro:\"ignore\"`\n", "\tzzIgnored4 float64 `json:\"x\"`\n",
+		// ignored and tagged opaque: the ignored status wins in every target
+		"\tzzIgnored5 int `gomacro-opaque:\"dart\"`\n", "\tZzIgnored6 []string `json:\"-\" gomacro-opaque:\"dart\"`\n",
+		"\tZzIgnored7 map[string]int `gomacro:\"ignore\" gomacro-opaque:\"typescript\"`\n", "\tZzIgnored8 float64 `json:\"-\" gomacro-opaque:\"dart, typescript\"`\n",
+		"\tZzIgnored9 *int `gomacro-opaque:\"dart\" gomacro:\"ignore\"`\n"}
 	for i := 0; i < nBase; i++ {
 		src := specs[i].Files[0].Src
 		j := strings.LastIndex(src, "}\n")
@@ -121,7 +125,7 @@ func runC09(e *env) {
 		tw := *specs[i]
 		tw.Name = specs[i].Name + "+ignored"
 		tw.Files = append([]modFile(nil), specs[i].Files...)
-		tw.Files[0] = modFile{"models.go", src[:j] + pick(e.r, ignoredFields) + src[j:]}
+		tw.Files[0] = modFile{"models.go", src[:j] + ignoredFields[i%len(ignoredFields)] + src[j:]}
 		tw.Tags = append([]string{"twin-of:" + fmt.Sprint(i)}, tw.Tags...)
 		specs = append(specs, &tw)
 	}
